@@ -414,10 +414,13 @@ def run(ck):
     ck.trusted_base = ['clang 14 front end/JSON AST', 'ufwsa.bitdom transfer functions (exact GF(2)-affine domain)',
                        'model: two\'s complement, CHAR_BIT=8, floats as bit patterns']
     ck.assumptions += ['host endianness as configured by the build (-DSYSTEM_ENDIANNESS_*); '
-                       'thorough tier also analyses the big-endian and no-builtin-swap variants',
+                       'the big-endian and no-builtin-swap variants of the header are analysed as well (all four combinations)',
                        'floats are IEEE bit patterns moved through unions (no arithmetic on them)']
     run_config(ck, None, '')
-    if ck.tier == 'thorough':
+    # the sources carry variants the pinned build never compiles (and its tests therefore never run): a big-endian host and
+    # the portable swap fallbacks used without UFW_USE_BUILTIN_SWAP (a consumer of the header that does not inherit the
+    # library's define gets those).  They are parsed and proved on every run, in both tiers.
+    if True:
         run_config(ck, {'big_endian': True}, '@big')
         run_config(ck, {'no_builtin_swap': True}, '@noswap')
         run_config(ck, {'big_endian': True, 'no_builtin_swap': True}, '@big-noswap')
